@@ -63,6 +63,7 @@ type Case struct {
 	Split     int              `json:"split"`               // header split offset (-1 none)
 	WireNeed  int              `json:"wire_need"`           // extra scripted matcher on the wire (forces prefetch)
 	Companion string           `json:"companion,omitempty"` // sender case: proxy_protocol setting of another live handler for the same upstream ("<nil>" = none)
+	Unloaded  bool             `json:"unloaded,omitempty"`  // receiver case: the configuration was unloaded before the client sent its first byte
 	Silent    bool             `json:"silent,omitempty"`    // sender case: the client stays silent until the upstream has the header
 	Flat      bool             `json:"flat,omitempty"`      // address route and a data-hungry route in the same list as the proxy_protocol route
 	Version   string           `json:"version,omitempty"`
@@ -260,6 +261,16 @@ func recvCase(c *fw.Ctx, r *rand.Rand, i int) {
 	local := vnet.TCPAddr("192.0.2.1", 443)
 	client, server := vnet.Pair(id, vnet.TCPAddr(peerIP, peerPort), local)
 	app.L.Inject(server)
+	if cs.Allow != nil && !cs.Allowed && fw.Rand(c.Seed, "c12unload", i).Intn(2) == 0 {
+		// the configuration is unloaded (listener closed, modules cleaned up) after layer4 took the connection and before
+		// the client says anything: a peer outside the allow list is still outside it for the handler instance that goes
+		// on serving this connection
+		for dl := time.Now().Add(5 * time.Second); !app.L.WasAccepted(server) && time.Now().Before(dl); time.Sleep(200 * time.Microsecond) {
+		}
+		time.Sleep(2 * time.Millisecond)
+		app.Stop()
+		cs.Unloaded = true
+	}
 	// segmentation
 	var segs []int
 	switch k := r.Intn(5); {
